@@ -22,7 +22,7 @@ ASSUMPTIONS = ['virtual time: library processing takes zero time, so setpoint in
 REQUIRED = ['mon.mc_programs', 'mon.mc_exceptions_in_body', 'mon.mc_hover_setpoints', 'mon.mc_primitives_checked',
             'mon.hl_programs', 'mon.hl_goto_checked', 'mon.hl_exceptions_in_body', 'mon.quiet_after_landing',
             'mon.mc_consecutive_motions_with_same_vertical_velocity', 'mon.mc_statement_level_preemption_runs',
-            'mon.mc_flights_ending_below_take_off_level']
+            'mon.mc_flights_ending_below_take_off_level', 'mon.mc_identical_velocity_commanded_again']
 DESC_TIMEOUT = 900
 PERIOD = 0.2
 
@@ -114,7 +114,11 @@ def gen_mc_program(rnd):
                 if z + vz * dwell < 0.1:
                     vz = 0.0
                 z += vz * dwell
-                chain.append(((rnd.uniform(-1, 1), rnd.uniform(-1, 1), vz, rnd.choice((0.0, rnd.uniform(-90, 90)))), dwell))
+                if chain and rnd.random() < 0.3 and chain[-1][0][2] == vz:
+                    # a control loop re-sending exactly the velocity that is already in effect
+                    chain.append((chain[-1][0], dwell))
+                else:
+                    chain.append(((rnd.uniform(-1, 1), rnd.uniform(-1, 1), vz, rnd.choice((0.0, rnd.uniform(-90, 90)))), dwell))
             prog.append((k, chain))
         elif k == 'start_turn':
             prog.append((k, rnd.choice((1, -1)) * rnd.uniform(5, 200), rnd.uniform(0.01, 2.0)))
@@ -201,7 +205,11 @@ def run_mc(desc, ctx):
                     mc.stop()
                 elif k == 'start_chain':
                     prev_vz = None
+                    prev_vel = None
                     for (vel, dwell) in p[1]:
+                        if prev_vel == vel:
+                            ob['same_vel'] = ob.get('same_vel', 0) + 1
+                        prev_vel = vel
                         seg(s, vel, dwell)
                         if prev_vz is not None and prev_vz == vel[2] and vel[2] != 0.0:
                             ob['same_vz'] = ob.get('same_vz', 0) + 1
@@ -269,6 +277,7 @@ def run_mc(desc, ctx):
             if prog and prog[-1][0] == 'down' and (boom_at is None) and sum(1 for _ in prog) and _ends_below(h0, prog):
                 ctx.count('mon.mc_flights_ending_below_take_off_level')
             ctx.count('mon.mc_consecutive_motions_with_same_vertical_velocity', ob.pop('same_vz', 0))
+            ctx.count('mon.mc_identical_velocity_commanded_again', ob.pop('same_vel', 0))
             info = {'program': core.jsonable(prog)[:8], 'default_height': h0, 'exception_before_primitive': boom_at, 'form': form,
                     'schedule': pol}
             rp = {'seed': desc['seed'], 'kind': 'mc', 'n': it + 1}
